@@ -943,3 +943,35 @@ func minIntExcluded(fs []Fact, v ssa.Value) bool {
 	}
 	return false
 }
+
+// --- R-RADIX: strings are converted to integers in base 10 -----------------------------------------
+
+var ruleRadix = &Rule{
+	Name: "R-RADIX", NeedSSA: true,
+	Doc: "every strconv.ParseInt / ParseUint in package exec (the string forms of .integer() and .bigint()) passes the constant base 10: base 0 would read a leading zero as octal (\"010\" → 8) and reject \"08\"",
+	Run: func(p *Prog) *RuleOut {
+		out := newOut("R-RADIX")
+		n := 0
+		ord := ordinals{}
+		for _, fn := range p.execFuncs() {
+			for _, c := range p.allCalls(fn) {
+				q := calleeQualified(&c.Call)
+				if q != "strconv.ParseInt" && q != "strconv.ParseUint" {
+					continue
+				}
+				n++
+				key := fmt.Sprintf("%s: %s #%d", fnName(fn), q, ord.next(fnName(fn)))
+				if k, ok := constInt(c.Call.Args[1]); ok && k == 10 {
+					out.ok(key, p.pos(c.Pos()), fnName(fn), "base 10")
+				} else {
+					out.viol(key, p.pos(c.Pos()), fnName(fn), "the string is not parsed in base 10 ("+trunc(c.Call.Args[1].String(), 20)+"): decimal strings with a leading zero convert to a different number or are rejected")
+				}
+			}
+		}
+		out.Counts["integer_string_conversions"] = n
+		out.Floors["integer_string_conversions"] = 2
+		return out
+	},
+}
+
+func init() { register(ruleRadix) }
